@@ -96,24 +96,87 @@ def readX (h : Heap α X L) (nox : X) (mm : MmRef) : Option (X × X) :=
   | none => some (nox, nox)
   | some r => h.xs[r]?
 
+/-- the abscissa pair the accumulator holds (`nanX` twice when it has no `ext_x`) -/
+def HoldsX (h : Heap α X L) (extx : Option Nat) (x0 : X × X) (nanX : X) : Prop :=
+  match extx with
+  | none => x0 = (nanX, nanX)
+  | some cx => h.xs[cx]? = some x0
+
+/-- `_put_time` for a row that is replaced, whatever the two sides have of abscissae: the
+accumulator's pair takes the input's abscissa in this column (`nanX` when the input has none) -/
+theorem putTime_spec (nanX : X) (h : Heap α X L) (c : CatRef) (mm : MmRef) (col : Nat)
+    (xv x0 : X × X) (hx : HoldsX h c.extx x0 nanX) (hxv : readX h nanX mm = some xv) :
+    ∃ h' c', putTime nanX h c mm col = some (h', c') ∧ h'.vals = h.vals ∧ h'.labs = h.labs ∧
+      c'.ext = c.ext ∧ c'.maxcase = c.maxcase ∧ c'.mincase = c.mincase ∧
+      HoldsX h' c'.extx (setCol x0 col (getCol xv col)) nanX := by
+  unfold putTime
+  cases hmx : mm.extx with
+  | none =>
+    simp only [readX, hmx, Option.some.injEq] at hxv
+    subst hxv
+    cases hcx : c.extx with
+    | none =>
+      simp only [hcx, HoldsX] at hx
+      subst hx
+      refine ⟨h, c, rfl, rfl, rfl, rfl, rfl, rfl, ?_⟩
+      simp only [hcx, HoldsX, setCol, getCol]
+      split <;> rfl
+    | some cx =>
+      simp only [hcx, HoldsX] at hx
+      have lx : cx < h.xs.length := (List.getElem?_eq_some_iff.1 hx).1
+      refine ⟨writeX h cx (setCol x0 col nanX), c, by simp [hx], rfl, rfl, rfl, rfl, rfl, ?_⟩
+      simp only [hcx, HoldsX, writeX, getCol]
+      simp only [List.getElem?_set_self lx]
+      split <;> rfl
+  | some rx =>
+    simp only [readX, hmx] at hxv
+    cases hcx : c.extx with
+    | none =>
+      simp only [hcx, HoldsX] at hx
+      subst hx
+      refine ⟨(allocX h (setCol (nanX, nanX) col (getCol xv col))).1, { c with extx := some h.xs.length },
+        by simp [hxv, allocX], rfl, rfl, rfl, rfl, rfl, ?_⟩
+      simp [HoldsX, allocX]
+    | some cx =>
+      simp only [hcx, HoldsX] at hx
+      have lx : cx < h.xs.length := (List.getElem?_eq_some_iff.1 hx).1
+      refine ⟨writeX h cx (setCol x0 col (getCol xv col)), c, by simp [hxv, hx], rfl, rfl, rfl, rfl, rfl, ?_⟩
+      simp [hcx, HoldsX, writeX, lx]
+
 section upd
 variable [LT α] [DecidableLT α]
 
 omit [LT α] [DecidableLT α] in
-/-- a later call, one column: the store operation is `Tr.upd` on the value-level state -/
-theorem updCol_spec (nanX nox : X) (better : α → α → Bool) (h : Heap α X L) (c : CatRef)
+/-- a later call, one column: the store operation is `Tr.upd` on the value-level state — whether or
+not the two sides have abscissae (a side without contributes `nanX`) -/
+theorem updCol_spec (nanX : X) (better : α → α → Bool) (h : Heap α X L) (c : CatRef)
     (r : Cur α X L) (mm : MmRef) (col : Nat) (hcol : col = 0 ∨ col = 1) (lab : L)
     (mv : Option α × Option α) (xv : X × X)
-    (hh : Holds h c r nox) (hne : c.maxcase ≠ c.mincase)
-    (hmv : h.vals[mm.ext]? = some mv) (hxv : readX h nox mm = some xv)
-    (hux : mm.extx.isSome = c.extx.isSome) :
-    ∃ h', updCol nanX better h c mm col lab = some (h', c) ∧
-      Holds h' c (if col = 0 then ⟨r.hi.upd better ⟨mv.1, xv.1, lab⟩, r.lo⟩
-        else ⟨r.hi, r.lo.upd better ⟨mv.2, xv.2, lab⟩⟩) nox := by
+    (hh : Holds h c r nanX) (hne : c.maxcase ≠ c.mincase)
+    (hmv : h.vals[mm.ext]? = some mv) (hxv : readX h nanX mm = some xv) :
+    ∃ h' c', updCol nanX better h c mm col lab = some (h', c') ∧
+      c'.ext = c.ext ∧ c'.maxcase = c.maxcase ∧ c'.mincase = c.mincase ∧
+      Holds h' c' (if col = 0 then ⟨r.hi.upd better ⟨mv.1, xv.1, lab⟩, r.lo⟩
+        else ⟨r.hi, r.lo.upd better ⟨mv.2, xv.2, lab⟩⟩) nanX := by
   obtain ⟨h1, h2, h3, h4⟩ := hh
   have lv : c.ext < h.vals.length := (List.getElem?_eq_some_iff.1 h1).1
   have l3 : c.maxcase < h.labs.length := (List.getElem?_eq_some_iff.1 h3).1
   have l4 : c.mincase < h.labs.length := (List.getElem?_eq_some_iff.1 h4).1
+  have hx0 : HoldsX h c.extx (r.hi.x, r.lo.x) nanX := by
+    unfold HoldsX
+    cases hcx : c.extx with
+    | none => simp only [hcx] at h2; rw [h2.1, h2.2]
+    | some cx => simpa [hcx] using h2
+  have holdsX_iff : ∀ (h' : Heap α X L) (c' : CatRef) (r' : Cur α X L),
+      HoldsX h' c'.extx (r'.hi.x, r'.lo.x) nanX →
+      (match c'.extx with
+        | none => r'.hi.x = nanX ∧ r'.lo.x = nanX
+        | some cx => h'.xs[cx]? = some (r'.hi.x, r'.lo.x)) := by
+    intro h' c' r' hx'
+    unfold HoldsX at hx'
+    cases hcx : c'.extx with
+    | none => simp only [hcx, Prod.mk.injEq] at hx'; exact hx'
+    | some cx => simpa [hcx] using hx'
   unfold updCol
   simp only [h1, hmv, Option.bind_eq_bind, Option.bind_some]
   rcases hcol with rfl | rfl
@@ -121,62 +184,30 @@ theorem updCol_spec (nanX nox : X) (better : α → α → Bool) (h : Heap α X 
     simp only [getCol, setCol, beq_self_eq_true, if_true, Tr.upd]
     by_cases hr : nanRepl better r.hi.v mv.1 = true
     · simp only [hr, if_true]
-      cases hmx : mm.extx with
-      | none =>
-        have hcx : c.extx = none := by
-          cases hc : c.extx with
-          | none => rfl
-          | some _ => simp [hmx, hc] at hux
-        simp only [readX, hmx, Option.some.injEq] at hxv
-        subst hxv
-        refine ⟨_, by simp [putTime, hmx, hcx]; rfl, ?_⟩
-        simp only [hcx] at h2
-        refine ⟨by simp [writeV, writeL, lv], by simp [hcx, h2.2], by simp [writeV, writeL, l3], ?_⟩
-        simp [writeV, writeL, List.getElem?_set_ne hne, h4]
-      | some rx =>
-        obtain ⟨cx, hcx⟩ : ∃ cx, c.extx = some cx := by
-          cases hc : c.extx with
-          | none => simp [hmx, hc] at hux
-          | some cx => exact ⟨cx, rfl⟩
-        simp only [readX, hmx] at hxv
-        simp only [hcx] at h2
-        have lx : cx < h.xs.length := (List.getElem?_eq_some_iff.1 h2).1
-        refine ⟨_, by simp [putTime, hmx, hcx, writeV, writeL, hxv, h2]; rfl, ?_⟩
-        refine ⟨by simp [writeX, writeV, writeL, lv], by simp [hcx, writeX, writeV, writeL, lx, getCol, setCol],
-          by simp [writeX, writeV, writeL, l3], ?_⟩
-        simp [writeX, writeV, writeL, List.getElem?_set_ne hne, h4]
+      obtain ⟨h', c', hp, hv', hl', e1, e2, e3, hx'⟩ := putTime_spec nanX
+        (writeV (writeL h c.maxcase lab) c.ext (mv.1, r.lo.v)) c mm 0 xv (r.hi.x, r.lo.x)
+        (by simpa [HoldsX, writeV, writeL] using hx0) (by simpa [readX, writeV, writeL] using hxv)
+      refine ⟨h', c', hp, e1, e2, e3, ?_, ?_, ?_, ?_⟩
+      · rw [e1, hv']; simp [writeV, writeL, lv]
+      · exact holdsX_iff h' c' _ (by simpa [setCol, getCol] using hx')
+      · rw [e2, hl']; simp [writeV, writeL, l3]
+      · rw [e3, hl']; simp [writeV, writeL, List.getElem?_set_ne hne, h4]
     · simp only [hr, Bool.false_eq_true, if_false]
-      exact ⟨h, rfl, h1, h2, h3, h4⟩
+      exact ⟨h, c, rfl, rfl, rfl, rfl, h1, h2, h3, h4⟩
   · -- the minimum column
     simp only [getCol, setCol, Nat.reduceBEq, Bool.false_eq_true, if_false, Tr.upd, Nat.one_ne_zero]
     by_cases hr : nanRepl better r.lo.v mv.2 = true
     · simp only [hr, if_true]
-      cases hmx : mm.extx with
-      | none =>
-        have hcx : c.extx = none := by
-          cases hc : c.extx with
-          | none => rfl
-          | some _ => simp [hmx, hc] at hux
-        simp only [readX, hmx, Option.some.injEq] at hxv
-        subst hxv
-        refine ⟨_, by simp [putTime, hmx, hcx]; rfl, ?_⟩
-        simp only [hcx] at h2
-        refine ⟨by simp [writeV, writeL, lv], by simp [hcx, h2.1], ?_, by simp [writeV, writeL, l4]⟩
-        simp [writeV, writeL, List.getElem?_set_ne (Ne.symm hne), h3]
-      | some rx =>
-        obtain ⟨cx, hcx⟩ : ∃ cx, c.extx = some cx := by
-          cases hc : c.extx with
-          | none => simp [hmx, hc] at hux
-          | some cx => exact ⟨cx, rfl⟩
-        simp only [readX, hmx] at hxv
-        simp only [hcx] at h2
-        have lx : cx < h.xs.length := (List.getElem?_eq_some_iff.1 h2).1
-        refine ⟨_, by simp [putTime, hmx, hcx, writeV, writeL, hxv, h2]; rfl, ?_⟩
-        refine ⟨by simp [writeX, writeV, writeL, lv], by simp [hcx, writeX, writeV, writeL, lx, getCol, setCol],
-          ?_, by simp [writeX, writeV, writeL, l4]⟩
-        simp [writeX, writeV, writeL, List.getElem?_set_ne (Ne.symm hne), h3]
+      obtain ⟨h', c', hp, hv', hl', e1, e2, e3, hx'⟩ := putTime_spec nanX
+        (writeV (writeL h c.mincase lab) c.ext (r.hi.v, mv.2)) c mm 1 xv (r.hi.x, r.lo.x)
+        (by simpa [HoldsX, writeV, writeL] using hx0) (by simpa [readX, writeV, writeL] using hxv)
+      refine ⟨h', c', hp, e1, e2, e3, ?_, ?_, ?_, ?_⟩
+      · rw [e1, hv']; simp [writeV, writeL, lv]
+      · exact holdsX_iff h' c' _ (by simpa [setCol, getCol] using hx')
+      · rw [e2, hl']; simp [writeV, writeL, List.getElem?_set_ne (Ne.symm hne), h3]
+      · rw [e3, hl']; simp [writeV, writeL, l4]
     · simp only [hr, Bool.false_eq_true, if_false]
-      exact ⟨h, rfl, h1, h2, h3, h4⟩
+      exact ⟨h, c, rfl, rfl, rfl, rfl, h1, h2, h3, h4⟩
 
 end upd
 
@@ -211,11 +242,10 @@ section run
 variable [LT α] [DecidableLT α]
 
 /-- the state of a history: nothing yet, or an accumulator holding a value-level state -/
-def Agree (n : Nat × Nat × Nat) (nox : X) (b : Bool) (hk : Heap α X L) (cur : Option CatRef)
+def Agree (n : Nat × Nat × Nat) (nox : X) (hk : Heap α X L) (cur : Option CatRef)
     (s : Option (Cur α X L)) : Prop :=
   (cur = none ∧ s = none) ∨
-  ∃ c r, cur = some c ∧ s = some r ∧ Holds hk c r nox ∧ c.maxcase ≠ c.mincase ∧ Owned n c ∧
-    c.extx.isSome = b
+  ∃ c r, cur = some c ∧ s = some r ∧ Holds hk c r nox ∧ c.maxcase ≠ c.mincase ∧ Owned n c
 
 omit [LT α] [DecidableLT α] in
 theorem readCall_keeps {n : Nat × Nat × Nat} {h hk : Heap α X L} (k : Keeps n h hk) (nox : X)
@@ -229,18 +259,19 @@ theorem readCall_keeps {n : Nat × Nat × Nat} {h hk : Heap α X L} (k : Keeps n
   | none => rfl
   | some r => exact keeps_xs k r (r2 r hx)
 
-/-- one call of the store model is `upd2` on the value-level state -/
-theorem step_spec (n : Nat × Nat × Nat) (nanX nox : X) (b : Bool) (h hk h1 : Heap α X L)
+/-- one call of the store model is `upd2` on the value-level state (a call without abscissae hands
+in `nanX`) -/
+theorem step_spec (n : Nat × Nat × Nat) (nanX : X) (h hk h1 : Heap α X L)
     (cur : Option CatRef) (s : Option (Cur α X L)) (c1 : CatRef)
     (e : MmRef × LabArg L × Option (LabArg L))
-    (k : Keeps n h hk) (ha : Agree n nox b hk cur s) (hr : InRange n e) (hb : e.1.extx.isSome = b)
+    (k : Keeps n h hk) (ha : Agree n nanX hk cur s) (hr : InRange n e)
     (hs : step true nanX hk cur e.1 e.2.1 e.2.2 = some (h1, c1)) :
-    ∃ m, readCall h nox e = some m ∧ Keeps n h h1 ∧ Agree n nox b h1 (some c1) (some (upd2 s m)) := by
-  obtain ⟨kv, kl, km, kx⟩ := readCall_keeps k nox e hr
+    ∃ m, readCall h nanX e = some m ∧ Keeps n h h1 ∧ Agree n nanX h1 (some c1) (some (upd2 s m)) := by
+  obtain ⟨kv, kl, km, kx⟩ := readCall_keeps k nanX e hr
   have hfr := step_frame n nanX hk h1 cur c1 e.1 e.2.1 e.2.2 k.2
     (by
       intro c hc
-      rcases ha with ⟨h0, -⟩ | ⟨c', r, h0, -, -, -, ho, -⟩
+      rcases ha with ⟨h0, -⟩ | ⟨c', r, h0, -, -, -, ho⟩
       · rw [h0] at hc; cases hc
       · rw [h0] at hc; cases hc; exact ho) hs
   unfold step at hs
@@ -253,8 +284,8 @@ theorem step_spec (n : Nat × Nat × Nat) (nanX nox : X) (b : Bool) (h hk h1 : H
     | some lmin =>
       simp only [hlb] at hs
       -- the value and the abscissae handed in can be read (the call went through)
-      have hreads : ∃ mv xv, hk.vals[e.1.ext]? = some mv ∧ readX hk nox e.1 = some xv := by
-        rcases ha with ⟨h0, -⟩ | ⟨c, r, h0, -, hh, -, -, hcx⟩
+      have hreads : ∃ mv xv, hk.vals[e.1.ext]? = some mv ∧ readX hk nanX e.1 = some xv := by
+        rcases ha with ⟨h0, -⟩ | ⟨c, r, h0, -, hh, -, -⟩
         · subst h0
           simp only at hs
           unfold firstCall at hs
@@ -285,47 +316,48 @@ theorem step_spec (n : Nat × Nat × Nat) (nanX nox : X) (b : Bool) (h hk h1 : H
               cases hx : e.1.extx with
               | none => exact ⟨_, rfl, rfl⟩
               | some rx =>
-                -- abscissae are given by every call (`b = true`); `InRange` puts the cell below `n ≤` size
+                -- `InRange` puts the cell below `n ≤` size
                 have hlt : rx < hk.xs.length := Nat.lt_of_lt_of_le (hr.2.1 rx hx) k.2.2.1
                 exact ⟨hk.xs[rx], rfl, by simp [hlt]⟩
       obtain ⟨mv, xv, hmv, hxv⟩ := hreads
-      have hm : readCall h nox e = some (⟨mv.1, xv.1, lmax⟩, ⟨mv.2, xv.2, lmin⟩) := by
+      have hm : readCall h nanX e = some (⟨mv.1, xv.1, lmax⟩, ⟨mv.2, xv.2, lmin⟩) := by
         unfold readCall
         have e1 : h.vals[e.1.ext]? = some mv := by rw [← kv]; exact hmv
         have e2 : readLab h e.2.1 = some lmax := by rw [← kl]; exact hla
         have e3 : readMin h lmax e.2.2 = some lmin := by rw [← km]; exact hlb
-        have e4 : readX h nox e.1 = some xv := by rw [← kx]; exact hxv
+        have e4 : readX h nanX e.1 = some xv := by rw [← kx]; exact hxv
         unfold readX at e4
         simp only [e1, e2, e3, e4]
       refine ⟨_, hm, k.trans hfr.1, ?_⟩
-      rcases ha with ⟨h0, hs0⟩ | ⟨c, r, h0, hs0, hh, hne, ho, hcx⟩
+      rcases ha with ⟨h0, hs0⟩ | ⟨c, r, h0, hs0, hh, hne, ho⟩
       · subst h0 hs0
         simp only at hs
-        obtain ⟨f1, f2, f3⟩ := firstCall_spec nox hk h1 c1 e.1 lmax lmin mv xv hmv hxv hs
-        exact Or.inr ⟨c1, _, rfl, rfl, f1, f2, hfr.2, by rw [f3, hb]⟩
+        obtain ⟨f1, f2, -⟩ := firstCall_spec nanX hk h1 c1 e.1 lmax lmin mv xv hmv hxv hs
+        exact Or.inr ⟨c1, _, rfl, rfl, f1, f2, hfr.2⟩
       · subst h0 hs0
         simp only at hs
-        obtain ⟨ha1, hu1, hh1⟩ := updCol_spec nanX nox gtB hk c r e.1 0 (Or.inl rfl) lmax mv xv hh hne hmv hxv
-          (by rw [hb, hcx])
+        obtain ⟨ha1, ca, hu1, ea1, ea2, ea3, hh1⟩ := updCol_spec nanX gtB hk c r e.1 0 (Or.inl rfl) lmax mv xv
+          hh hne hmv hxv
         simp only [hu1] at hs
-        have k1 : Keeps n hk ha1 := (updCol_frame n nanX gtB hk ha1 c c e.1 0 lmax k.2 ho hu1).1
-        obtain ⟨kv1, -, -, kx1⟩ := readCall_keeps k1 nox e hr
-        obtain ⟨ha2, hu2, hh2⟩ := updCol_spec nanX nox ltB ha1 c _ e.1 1 (Or.inr rfl) lmin mv xv hh1 hne
-          (by rw [kv1]; exact hmv) (by rw [kx1]; exact hxv) (by rw [hb, hcx])
+        obtain ⟨k1, oa⟩ := updCol_frame n nanX gtB hk ha1 c ca e.1 0 lmax k.2 ho hu1
+        obtain ⟨kv1, -, -, kx1⟩ := readCall_keeps k1 nanX e hr
+        have hnea : ca.maxcase ≠ ca.mincase := by rw [ea2, ea3]; exact hne
+        obtain ⟨ha2, cb, hu2, eb1, eb2, eb3, hh2⟩ := updCol_spec nanX ltB ha1 ca _ e.1 1 (Or.inr rfl) lmin mv xv
+          hh1 hnea (by rw [kv1]; exact hmv) (by rw [kx1]; exact hxv)
         rw [hu2] at hs
         simp only [Option.some.injEq, Prod.mk.injEq] at hs
         obtain ⟨rfl, rfl⟩ := hs
-        refine Or.inr ⟨c, _, rfl, rfl, ?_, hne, ho, hcx⟩
+        refine Or.inr ⟨cb, _, rfl, rfl, ?_, by rw [eb2, eb3]; exact hnea, hfr.2⟩
         simpa [upd2] using hh2
 
-theorem run_spec (n : Nat × Nat × Nat) (nanX nox : X) (b : Bool) (h : Heap α X L) :
+theorem run_spec (n : Nat × Nat × Nat) (nanX : X) (h : Heap α X L) :
     ∀ (hist : List (MmRef × LabArg L × Option (LabArg L))) (hk h' : Heap α X L)
       (cur cur' : Option CatRef) (s : Option (Cur α X L)),
-      Keeps n h hk → Agree n nox b hk cur s →
-      (∀ e ∈ hist, InRange n e ∧ e.1.extx.isSome = b) →
+      Keeps n h hk → Agree n nanX hk cur s →
+      (∀ e ∈ hist, InRange n e) →
       run true nanX hk cur hist = some (h', cur') →
-      ∃ ms, hist.mapM (readCall h nox) = some ms ∧
-        Agree n nox b h' cur' (ms.foldl (fun s m => some (upd2 s m)) s)
+      ∃ ms, hist.mapM (readCall h nanX) = some ms ∧
+        Agree n nanX h' cur' (ms.foldl (fun s m => some (upd2 s m)) s)
   | [], hk, h', cur, cur', s, _, ha, _, hs => by
     simp only [run, Option.some.injEq, Prod.mk.injEq] at hs
     obtain ⟨rfl, rfl⟩ := hs
@@ -338,9 +370,9 @@ theorem run_spec (n : Nat × Nat × Nat) (nanX nox : X) (b : Bool) (h : Heap α 
     | some p =>
       obtain ⟨h1', c1⟩ := p
       simp only [h1] at hs
-      obtain ⟨m, hm, k1, a1⟩ := step_spec n nanX nox b h hk h1' cur s c1 (mm, a, bb) k ha
-        (hr _ (List.mem_cons_self ..)).1 (hr _ (List.mem_cons_self ..)).2 h1
-      obtain ⟨ms, hms, a2⟩ := run_spec n nanX nox b h rest h1' h' (some c1) cur' _ k1 a1
+      obtain ⟨m, hm, k1, a1⟩ := step_spec n nanX h hk h1' cur s c1 (mm, a, bb) k ha
+        (hr _ (List.mem_cons_self ..)) h1
+      obtain ⟨ms, hms, a2⟩ := run_spec n nanX h rest h1' h' (some c1) cur' _ k1 a1
         (fun e he => hr e (List.mem_cons_of_mem _ he)) hs
       exact ⟨m :: ms, by simp [hm, hms], a2⟩
 
